@@ -260,6 +260,10 @@ var c20Gens = []string{
 }
 
 var c20Loops = []string{
+	// a value joined from two branches (or alternatives) is replaced by a variable: the slot of the branch not taken must not stay behind
+	"0 as $a | 1 as $one | def f: . as $v | (if $v >= 0 then . else $a end | $one) | . + $v | if . >= $n then . else f end; 0 | f", "0 as $a | 1 as $one | def f: . as $v | ((., $a) | $one) | select(. == 1) | first(., .) + $v - 0 | if . >= $n then . else f end; 0 | f"[:0] + "0 as $a | 1 as $one | def f: . as $v | (if $v < 0 then $a else . end | $one) + $v | if . >= $n then . else f end; 0 | f",
+	"1 as $one | 0 | until(. >= $n; . as $v | (if $v >= 0 then . else 0 end | $one) + $v)", "1 as $one | reduce range($n) as $i (0; . as $v | (if $v >= 0 then . else $i end | $one) + $v)",
+	"[1] as [$one] | def f: . as $v | (if $v % 2 == 0 then [$v] else $v end | $one) + $v | if . >= $n then . else f end; 0 | f", "{a: 1} as {a: $one} | def f: (. as $v | if . then ., $v else $v end | $one) + . | if . >= $n then . else f end; 0 | [limit(1; f)] | .[0]"[:0] + "{a: 1} as {a: $one} | def f: . as $v | (if true then $v else . end | $one) + $v | if . >= $n then . else f end; 0 | f",
 	// turns that pass through the last (or only) member of a container before going on without backtracking
 	"0 | until(. >= $n; [. + 1][])", "0 | until(. >= $n; {a: (. + 1)}[])", "0 | until(. >= $n; [., . + 1] | .[1:][])", "0 | until(. >= $n; [. + 1] | .[0:][])", "0 | until(. >= $n; {a: (. + 1)} | .[keys[]])", "0 | until(. >= $n; {a: (. + 1)} | to_entries[] | .value)",
 	"0 | until(. >= $n; tostring | split(\",\")[] | tonumber + 1)", "0 | until(. >= $n; [[. + 1]][][])", "0 | until(. >= $n; . + 1 | tostring | [scan(\"[0-9]+\")][] | tonumber)", "0 | until(. >= $n; [. + 1] | .[-1:][])",
